@@ -78,6 +78,8 @@ class MessageInterface:
         byte_message = b''
         while True:
             c = self.connection_socket.recv(1)
+            if c == b'':
+                raise Exception('Connection is closed by the peer.')
             if c == b'\r':
                 s = self.connection_socket.recv(1)
                 if s != b'\n':
